@@ -274,6 +274,24 @@ struct Visit { // for_each's functor: the RETURNED copy carries the number of ca
     int n = 0;
     void operator()(E const& e) { seen->push_back(e.v); ++n; }
 };
+// An element type whose exchange is observable: a user-provided swap (found by argument-dependent lookup only) exchanges
+// the payload and keeps the per-cell tag; the generic three-move swap moves the tag along.  [alg.swap]: iter_swap is
+// `swap(*a, *b)` (unqualified), reverse applies iter_swap exactly (last - first) / 2 times, swap_ranges calls swap n times.
+namespace adl {
+static int g_user_swaps = 0;
+struct S {
+    int v    = 0;
+    int home = 0;
+};
+inline void swap(S& a, S& b) noexcept
+{
+    int t = a.v;
+    a.v   = b.v;
+    b.v   = t;
+    ++g_user_swaps;
+}
+} // namespace adl
+
 struct ND { // no default constructor: shift_right's `if constexpr (is_default_constructible_v<value_type>)` else-branch
     int v;
     ND() = delete;
@@ -796,6 +814,28 @@ static std::string step(Line const& ln)
     if (op == "rotate")
         return inplace_fwd([&](auto F, auto L, E* a0, auto mk) { auto r = etl::rotate(F, mk(a0 + m), L); return IDX(r) + " " + arr(a0); },
             [&](E* F, E* L, E* a0, auto) { auto r = std::rotate(F, a0 + m, L); return IDX(r) + " " + arr(a0); });
+    if (op == "adl_swap") { // n elements; the number of user-swap calls and the payload/tag layout after each of the three algorithms
+        std::size_t const k = static_cast<std::size_t>(ln.i("n", 0));
+        auto run = [&](auto iter_swap_fn, auto reverse_fn, auto swap_ranges_fn) {
+            std::vector<adl::S> x(k + 2), y(k + 2);
+            auto fill = [&] { for (std::size_t t = 0; t < k + 2; ++t) { x[t] = adl::S{static_cast<int>(10 + t), static_cast<int>(t)}; y[t] = adl::S{static_cast<int>(50 + t), static_cast<int>(100 + t)}; } };
+            auto show = [&] {
+                std::string r = " u=" + std::to_string(adl::g_user_swaps) + " x=";
+                for (auto const& e : x) r += std::to_string(e.v) + "@" + std::to_string(e.home) + ",";
+                r += " y=";
+                for (auto const& e : y) r += std::to_string(e.v) + "@" + std::to_string(e.home) + ",";
+                return r;
+            };
+            std::string r;
+            fill(); adl::g_user_swaps = 0; iter_swap_fn(x.data(), y.data() + 1); r += "is" + show();
+            fill(); adl::g_user_swaps = 0; reverse_fn(x.data() + 1, x.data() + 1 + k); r += " rv" + show();
+            fill(); adl::g_user_swaps = 0; swap_ranges_fn(x.data() + 1, x.data() + 1 + k, y.data() + 1); r += " sr" + show();
+            return r;
+        };
+        std::string re = impl([&] { return run([](auto a0, auto b0) { etl::iter_swap(a0, b0); }, [](auto F, auto L) { etl::reverse(F, L); }, [](auto F, auto L, auto D) { etl::swap_ranges(F, L, D); }); });
+        std::string rs = run([](auto a0, auto b0) { std::iter_swap(a0, b0); }, [](auto F, auto L) { std::reverse(F, L); }, [](auto F, auto L, auto D) { std::swap_ranges(F, L, D); });
+        return out(re, rs);
+    }
     if (op == "reverse" && it == "rptr") { // the same range seen through reverse_iterators (random access: `first < last`)
         Buf a(av), s(av);
         std::string re = impl([&] { etl::reverse(etl::make_reverse_iterator(a.p + l), etl::make_reverse_iterator(a.p + f)); return arr(a.p); });
